@@ -17,7 +17,7 @@ use yash_syntax::syntax::List;
 
 const NAMES: [&str; 3] = ["a", "b", "c"];
 /// None = undefined
-const VALUES: [Option<&str>; 20] = [
+const VALUES: [Option<&str>; 23] = [
     None,
     Some(""),
     Some("b"),
@@ -39,6 +39,10 @@ const VALUES: [Option<&str>; 20] = [
     Some("b\t"),
     Some("x \t"),
     Some("a\t "),
+    // values that mention c (self-reference when given to c, the alias that may be global)
+    Some("c"),
+    Some("c x"),
+    Some("x c "),
 ];
 
 const LINES: [&str; 32] = [
